@@ -239,6 +239,12 @@ func (x *g) scalarField(oneof int) desc.Field {
 	}
 	if f.Type != "enum" && x.r.P(15) {
 		f.CastType = castTypeFor(f.Type)
+		// a cast type whose name ends with the name of the custom duration type is a cast like any other
+		if x.r.P(20) && f.Type == "string" {
+			f.CastType = "ISODuration"
+		} else if x.r.P(15) && f.Type == "int64" {
+			f.CastType = "MaxDuration"
+		}
 		// a cast to a PREDECLARED type: plain `int` / `uint` (never qualified with the struct package)
 		if x.r.P(25) && (f.Type == "int64" || f.Type == "sint64" || f.Type == "sfixed64") {
 			f.CastType = "int"
